@@ -3,6 +3,7 @@ import Txtpp.Model.Fs
 import Txtpp.Lemmas.OutputConfTxtpp
 import Txtpp.Lemmas.ByteLines
 import Txtpp.Lemmas.ByteEndings
+import Txtpp.Lemmas.CrFs
 /-!
 # Property C12 — generated files use one line ending: that of the source's first line
 -/
@@ -104,5 +105,27 @@ theorem generated_bytes_one_ending {W : Type} (Wd : World W) (hW : WorldCr Wd) (
   rcases hs with hs | hs
   · left; rw [hs] at hle; exact ⟨hs, bytes_crlf_only out hle⟩
   · right; rw [hs] at hle; exact ⟨hs, bytes_lf_only out hle⟩
+
+/-- **Whole run, file-system model.** If in every file of the tree a CR occurs only before LF (bytes) and
+commands print such text, then after a run - any mode, any inputs, any verdict - the same is true of every
+file of the tree, generated files included: no stray CR is ever produced. -/
+theorem run_keeps_tree_cr_clean (cfg : Cfg) (hcmd : CmdCr cfg) (fs : FS) (inputs : List (List Char)) (h : CrFS fs) :
+    CrFS (runProject cfg fs inputs).2 := runProject_crfs cfg hcmd fs inputs h
+
+/-- **One build pass, on the bytes of the output file.** Over such a tree, after a build pass that ends
+`ok`, the output file holds the encoding of a text whose line terminators are all the ending of the
+source's first line: for a CRLF source the bytes 13 and 10 occur only as the pair, for an LF source the
+byte 13 does not occur. (Included files are read from the file system here, not assumed.) -/
+theorem build_pass_output_bytes_one_ending (cfg : Cfg) (hb : cfg.mode = .build) (hcmd : CmdCr cfg) (fs : FS) (src o : Path)
+    (first : Bool) (content : ByteArray) (h : CrFS fs) (hfile : fs.file? src = some content) (hout : outputPath src = some o)
+    (hok : (runPass cfg fs src first).1 = .ok) :
+    ∃ out, (runPass cfg fs src first).2.file? o = some (encodeUtf8 out) ∧
+      ((sniffLE content.toList = ['\r', '\n'] ∧ crlfOnly (lineBytes out) = true) ∨
+       (sniffLE content.toList = ['\n'] ∧ (13 : UInt8) ∉ lineBytes out)) :=
+  runPass_output_bytes cfg hb hcmd fs src o first content h hfile hout hok
+
+/-- bytes and text agree on "CR only before LF" (both directions, through the UTF-8 codec) -/
+theorem cr_clean_bytes_iff_text (s : List Char) : crB s.utf8Encode.data.toList = true ↔ crDom s = true :=
+  ⟨crDom_of_bytes s, bytes_of_crDom s⟩
 
 end C12
